@@ -5,6 +5,7 @@
 //! pp_harness --replay <file> --drv <path>
 
 mod campaigns;
+mod exhaustive;
 mod extra;
 mod serde_campaign;
 mod gen;
@@ -438,11 +439,22 @@ fn main() {
         }
     }
     let corpus_n = todo.len() as u64;
+    let exhaustive = campaign.starts_with("exh-");
+    if exhaustive {
+        let shard: usize = opt.get("shard").map(|s| s.parse().unwrap()).unwrap_or(0);
+        let shards: usize = opt.get("shards").map(|s| s.parse().unwrap()).unwrap_or(1);
+        for c in exhaustive::enumerate(&campaign, shard, shards) {
+            todo.push((c, false));
+        }
+    }
 
     let mut idx = 0u64;
+    let mut todo_iter = todo.into_iter();
     loop {
-        let (case, from_corpus) = if !todo.is_empty() {
-            todo.remove(0)
+        let (case, from_corpus) = if let Some(t) = todo_iter.next() {
+            t
+        } else if exhaustive {
+            break;
         } else if idx < n {
             idx += 1;
             let c = if extra::is_extra(&campaign) { extra::gen_case(&campaign, &mut rng) } else { campaigns::gen_case(&campaign, &mut rng) };
@@ -488,6 +500,8 @@ fn main() {
     let report = serde_json::json!({
         "campaign": campaign,
         "seed": seed,
+        "exhaustive": exhaustive,
+        "scope": exhaustive::scope(&campaign),
         "cases": cases_run,
         "corpus_cases": corpus_n,
         "distinct": seen.len(),
